@@ -115,6 +115,32 @@ class Ctx:
         if len(self.samples) < 12:
             self.samples.append(obj)
 
+    # ---- tentative sub-runs (portfolio of analysis settings) ----------------
+    def fork(self):
+        """A scratch context sharing the extracted facts; its findings count only if merged."""
+        c = Ctx(self.prop, self.tier, self.repo, self.seed, self.selftest)
+        c._facts = self._facts
+        return c
+
+    def merge(self, sub):
+        for v in sub.violations:
+            for cfg in (v['configs'] or [None]):
+                self.violation(v['rule'], v['fn'], v['instance'], v['msg'], site=v['site'], kind=v['kind'], path=v['path'], config=cfg)
+        for rid, r in sub.rules.items():
+            mine = self.rules.setdefault(rid, {'desc': r.get('desc', ''), 'instances': 0, 'ok': 0, 'samples': []})
+            mine['instances'] += r['instances']
+            mine['ok'] += r['ok']
+            mine['samples'] += r['samples'][:max(0, 12 - len(mine['samples']))]
+        self.obligations += sub.obligations
+        self.discharged += sub.discharged
+        for a in sub.assumptions:
+            self.assume(a)
+        for t in sub.trusted:
+            self.trust(t)
+        for x in sub.samples:
+            self.sample(x)
+        self.extra.update(sub.extra)
+
     # ---- finish -----------------------------------------------------------
     def finish(self, wall):
         with open(os.path.join(VERIF, 'known_findings.json')) as fh:
